@@ -22,6 +22,16 @@ NOTES = ("Technique family: machine-checked proof in Lean 4. Every claimed prope
          "hand-written model in lean/Rml/Model, tied to /repo by the correspondence run of tools/check.py. See DESIGN.md.")
 
 PROPS = {
+    "C05": dict(
+        lean=["Rml.Props.C05"], families=["hs"],
+        level_text="PARTIAL proof, with hmac and both random fills arbitrary. Proved: the five-stage loop of process_bytes equals a straight-line closed form for EVERY state and input (processBytes_eq_procSpec); against ANY peer stream 3‖p1‖p2‖tail (digest-bearing or original) a party, in either start mode, emits 3‖own p1‖answer (3073 bytes), completes and returns exactly `tail` (C05_one_call_fresh/_started, C05_emits_3073); no input shorter than 3073 bytes completes it (C05_no_early_completion); bad version byte and post-completion input are refused. NOT yet a theorem: the same for every partition into calls and every two-party schedule; covered by hs.xfer schedules interpreted by model and real code (byte-exact under hook H1) and the !hs.pair oracle on real handshakes incl. an original-handshake peer under many fragmentations and trailing data.",
+        level_note="Trusted: Lean kernel; HMAC-SHA256 and the random fill are parameters (the driver instantiates HMAC with its own SHA-256, self-tested on standard vectors); model tied to code byte-exactly under hook H1 (deterministic fill). Fragmentation clause currently rests on differential testing.",
+    ),
+    "C11": dict(
+        lean=["Rml.Props.C11"], families=["hs"],
+        level_text="Proved for both roles, EVERY random fill and an arbitrary 32-byte-valued hmac: every generated packet 1 has time 0, version 128.0.7.2 and, at the offset its own bytes select under the role's scheme, the HMAC of the rest of the packet under the role's key — writing the digest moves neither the offset bytes nor the hashed message (C11_p1), and a prober of both positions finds it (C11_p1_found_by_prober); every one of the 728 offsets of each scheme is selected by some fill (C11_offsets_onto); packet 2 in answer to a packet 1 with a digest under either scheme/any offset keeps its 1504 random bytes and ends with HMAC(HMAC(digest, key‖crud), those bytes) (C11_p2_digest); in answer to a digest-less packet 1 it is an exact echo (C11_p2_echo).",
+        level_note="That `hmac` IS HMAC-SHA256 with the Adobe keys is checked, not proved: the driver's own SHA-256 (self-tested) reproduces the real library's packets byte-for-byte for all 728 own-packet offsets of both roles and all 2×728 received-packet offsets (hook H1), and the harness verifies digests/signatures with independent code. Trusted: Lean kernel; sha2/hmac crates.",
+    ),
     "C13": dict(
         lean=["Rml.Props.C13"], families=["msg"],
         level_text="Proved for all field values on the model of rtmp/src/messages/**: C13_roundtrip (every well-formed message of every variant — all u32 values, all 9 user-control events, all 3 limit types, arbitrary AMF0 argument lists via C04, arbitrary audio/video bytes — converts to a payload that converts back to an equal message), C13_layout (type ids and body layouts written out from RTMP 1.0 §5.4/§7.1 in the theorem statement), C13_alias (15≡18, 17≡20 with optional leading zero), C13_unknown (all unassigned ids pass through untouched in both directions), C13_chunk_size_range (rejected ⇔ > 2^31-1, both directions).",
